@@ -160,6 +160,8 @@ type ExploreConfig struct {
 	// SigLabels: symbols (by harness label) whose model value is part of a
 	// violation's identity (e.g. the program/template index)
 	SigLabels []string
+	// HangIsViolation: exceeding the step limit is reported as a hang
+	HangIsViolation bool
 }
 
 // pathCtx is the per-path symbolic state.
